@@ -135,7 +135,10 @@ def zone_of(n: Node) -> str:
             return 'base_name'
         if a.tag == 'td':
             tr = a.parent
-            if tr is not None and tr.tag == 'tr':
+            tb = tr.parent if tr is not None else None
+            if tb is not None and tb.tag == 'tbody':
+                tb = tb.parent
+            if tr is not None and tr.tag == 'tr' and tb is not None and 'children' in tb.classes():
                 tds = [k for k in tr.elems() if k.tag == 'td']
                 if a in tds:
                     return ['table_kind', 'table_name', 'table_summary'][min(tds.index(a), 2)]
